@@ -1,26 +1,42 @@
 #!/bin/bash
 # MANIFEST.setup_cmd: offline build of everything the checks need.
-#  - full .vo build of the Coq development (no -vos/-vok)
+#  - full .vo build of the Coq development (coq_makefile + make, no -vos/-vok)
 #  - warm build of every Go harness against /repo (fills the Go build cache)
+# Fails only when something a CLAIMED property needs does not build.
 set -u
 cd "$(dirname "$0")"
 export GOFLAGS=-mod=mod GOPROXY=off
 unset GOTOOLCHAIN GOSUMDB
 mkdir -p out evidence
 python3 - <<'PY'
-import sys
+import sys, os, json, importlib
 sys.path.insert(0, ".")
 from verifpy import core
-ok, log = core.coq_build()
-print(log[-3000:])
-if not ok:
-    print("SETUP: Coq build failed"); sys.exit(1)
-import os
+claimed = [c["property_id"] for c in json.load(open("MANIFEST.json"))["checks"]]
+props = {}
+for pid in claimed:
+    props[pid] = importlib.import_module("verifpy.props." + pid.lower()).PROP
+# 1. everything, keep going
+with core.Lock("coq"):
+    vs = core.coq_sources()
+    open(os.path.join(core.COQ, "_CoqProject"), "w").write("-Q . Verif\n" + "\n".join(vs) + "\n")
+    core.sh(["coq_makefile", "-f", "_CoqProject", "-o", "Makefile"], cwd=core.COQ, timeout=120)
+    rc, out = core.sh(["make", "-k", "-j%d" % core.NCPU], cwd=core.COQ, timeout=7200)
+print(out[-2500:])
+print("SETUP: full Coq build rc=%d" % rc)
+# 2. what the claimed properties need must be there
 bad = 0
+for pid, p in props.items():
+    roots = ([p.props_file] if p.props_file else []) + list(p.coq_modules)
+    ok, log = core.coq_build([r[:-2] + ".vo" for r in roots])
+    print("coq", pid, "ok" if ok else "FAILED")
+    if not ok:
+        print(log[-2000:]); bad += 1
+needed = {p.harness for p in props.values() if p.harness}
 for d in sorted(os.listdir("harness/cmd")):
     ok, b, log = core.go_build(d, os.path.join(core.OUT, "setup"))
-    print("harness", d, "ok" if ok else "FAILED")
-    if not ok:
-        print(log[-3000:]); bad += 1
+    print("harness", d, "ok" if ok else ("FAILED" if d in needed else "failed (not claimed)"))
+    if not ok and d in needed:
+        print(log[-2000:]); bad += 1
 sys.exit(1 if bad else 0)
 PY
